@@ -29,6 +29,9 @@ type Prog struct {
 	normPost     bool
 	ivFrames     []*ivFrame // interval analysis: open loops (break/continue environments)
 	ivDepth      int
+	ivCurSite    ast.Node
+	ivInLin      bool
+	ivCurFn      *ast.FuncDecl // interval analysis: the function being walked (for symbolic cancellation)
 	ivCallDepth  int
 	ivRets       []*ivRetFrame
 	ivZeroCoef   bool // interval analysis: assume decompose returns a zero coefficient
